@@ -20,7 +20,7 @@ pub struct Avoid {
     pub if_direct: bool,
     /// directive prologue other than a single leading 'use strict'
     pub multi_directive: bool,
-    /// optional call `?.()` whose callee is a parenthesised member expression
+    /// optional call `?.()` whose callee is a member of an inner part of the same optional chain (`a?.m().p?.()`)
     pub opt_call_paren_callee: bool,
     /// with the plus operator disabled: a bare `+` expression as operand of an instrumented call / template
     pub plain_sum_operand: bool,
@@ -675,12 +675,6 @@ impl<'t, 'a> Gen<'t, 'a> {
             }
             // a?.(x).m(args)
             4 => {
-                let base = if self.o.avoid.opt_call_paren_callee && matches!(base, E::Paren(_)) {
-                    self.redirect("opt_call_paren_callee");
-                    self.ident()
-                } else {
-                    base
-                };
                 let a2 = self.args(d.min(1));
                 E::Call {
                     callee: E::Member { obj: E::Call { callee: base.bx(), args: a2, optional: true }.bx(), prop: m, optional: false }.bx(),
